@@ -5,6 +5,9 @@ impl GlobalConstantPropagator {
     pub(super) fn substitute_constants(&mut self, expr: &mut TypedExpr) {
         match &mut expr.kind {
             TypedExprKind::Identifier(name) => {
+                if !self.may_substitute(name) {
+                    return;
+                }
                 if let Some(c) = self.constants.get(name) {
                     let ty = if expr.ty.is_integer() && c.ty.is_integer() {
                         expr.ty.clone()
@@ -158,8 +161,20 @@ impl GlobalConstantPropagator {
     }
 
     fn substitute_in_function(&mut self, func: &mut TypedFunction) {
+        self.fn_depth += 1;
         for stmt in &mut func.body {
             self.substitute_in_stmt(stmt);
+        }
+        self.fn_depth -= 1;
+    }
+
+    // the use is in top-level statement `cursor`. It sees the constant's value if the `let`
+    // is an earlier statement, or if it sits in the body of a function declared among the
+    // leading declarations of the program, none of which can call it before the `let` runs
+    fn may_substitute(&self, name: &str) -> bool {
+        match self.positions.get(name) {
+            Some(pos) => *pos < self.cursor || (self.fn_depth > 0 && *pos < self.first_effect),
+            None => false,
         }
     }
 }
